@@ -189,14 +189,16 @@ func (s *Schema) ValidateData(data []byte) error {
 	)
 
 	if !bytes.HasPrefix(bytes.TrimSpace(data), []byte{'{'}) {
-		err = yaml.Unmarshal(data, &any)
+		// convert without going through float64, which cannot represent
+		// every int64/uint64 value the schema allows
+		data, err = yaml.YAMLToJSON(data)
 		if err != nil {
-			return fmt.Errorf("failed to YAML unmarshal data for validation: %w", err)
+			return fmt.Errorf("failed to convert YAML data to JSON for validation: %w", err)
 		}
-		data, err = json.Marshal(any)
-		if err != nil {
-			return fmt.Errorf("failed to JSON remarshal data for validation: %w", err)
-		}
+	}
+	// decode once for the content checks below, whatever the encoding was
+	if err = json.Unmarshal(data, &any); err != nil {
+		any = nil
 	}
 
 	if err := s.validate(schema.NewBytesLoader(data)); err != nil {
